@@ -75,6 +75,12 @@ class Gen:
             return self.rand_enum()
         k = r.randrange(10)
         if k < 3:
+            if r.random() < 0.2:
+                # map-like: a sequence of (key, value) pairs; a set-like sequence of sequences
+                key = r.choice([('A', r.choice('ilLcsB')), ('Q', ('A', 'c'))])
+                return ('Q', ('T', [key, self.rand_ty(depth + 2, deser_only)]))
+            if r.random() < 0.15:
+                return ('Q', ('Q', ('A', r.choice('ilcB'))))
             return ('Q', self.rand_ty(depth + 1, deser_only))
         if k < 5:
             return ('T', [self.rand_ty(depth + 1, deser_only) for _ in range(r.choice([0, 1, 2, 2, 3, 4]))])
@@ -207,12 +213,16 @@ class Gen:
                 kinds += ['vector_bool'] if elem['cxx'] == 'bool' else []
             if et[0] == 'A' and et[1] in INT_TAGS + 'c':
                 kinds += ['set', 'multiset']
+            elif comparable_rt(elem):
+                # associative containers of compound elements (sets of sets / vectors / tuples ...): the insert category of
+                # the deserializer with a non-trivial element
+                kinds += ['set', 'set', 'multiset']
+            if et[0] == 'T' and len(et[1]) == 2 and elem['cxx'].startswith('std::pair') and comparable_rt(elem['elems'][0]) and not moveonly(elem):
+                kinds += ['map', 'map', 'multimap']
             if not deser:
                 kinds += ['array', 'carray' if top else 'fixedseq', 'array_view', 'sizedseq', 'nosizeseq']
                 if et == ('A', 'c'):
                     kinds += ['cstr', 'cstr']
-                if et[0] == 'T' and len(et[1]) == 2 and et[1][0][0] == 'A' and et[1][0][1] in INT_TAGS and elem['cxx'].startswith('std::pair'):
-                    kinds += ['map', 'map', 'multimap']
             kind = r.choice(kinds)
             self.bump('seq-' + kind)
             if kind in ('array', 'carray', 'fixedseq', 'array_view', 'sizedseq', 'nosizeseq', 'cstr', 'map', 'multimap'):
@@ -234,7 +244,7 @@ class Gen:
             elems = [self.realise(t, deser) for t in ty[1]]
             if any(e is None for e in elems):
                 return None
-            if len(elems) == 2 and r.random() < 0.4:
+            if len(elems) == 2 and r.random() < 0.5:
                 self.bump('pair')
                 return {'ty': ty, 'cxx': 'std::pair<%s, %s>' % (elems[0]['cxx'], elems[1]['cxx']), 'kind': 'tup', 'elems': elems}
             self.bump('tuple')
@@ -525,6 +535,33 @@ class Gen:
         raise ValueError(k)
 
 
+def comparable_rt(rt):
+    """does the C++ realisation have a strict weak operator< that python can mirror (no floats: NaN)"""
+    k = rt['kind']
+    if k == 'arith':
+        return rt['ty'][1] in INT_TAGS + 'cy'
+    if k == 'seq':
+        return rt['seqkind'] in ('vector', 'deque', 'list', 'forward_list', 'string', 'set', 'multiset', 'vector_bool', 'map', 'multimap') and comparable_rt(rt['elem'])
+    if k == 'tup':
+        return all(comparable_rt(e) for e in rt['elems'])
+    return False
+
+
+def order_key(rt, val):
+    """a python key that orders canonical values like operator< orders the C++ objects"""
+    k = rt['kind']
+    if k == 'arith':
+        c = rt['ty'][1]
+        size = ARITH[c][0]
+        raw = val[1]
+        return raw - (1 << (8 * size)) if (c in SIGNED and raw >= 1 << (8 * size - 1)) else raw
+    if k == 'seq':
+        return tuple(order_key(rt['elem'], v) for v in val[1])
+    if k == 'tup':
+        return tuple(order_key(e, v) for e, v in zip(rt['elems'], val[1]))
+    raise ValueError(k)
+
+
 NULL_CSTR_VAL = ('q', [('n', c) for c in b'{null}'])
 ERRNO_MESSAGES = None
 
@@ -653,11 +690,9 @@ def canon_value_for(rt, val):
                 return NULL_CSTR_VAL          # a null `const char*` is logged as "{null}"
             return ('q', elems)
         if sk in ('map', 'multimap'):
-            c = rt['ty'][1][1][0][1]
-            size = ARITH[c][0]
+            krt = rt['elem']['elems'][0]
             def mkey(e):
-                raw = e[1][0][1]
-                return raw - (1 << (8 * size)) if (c in SIGNED and raw >= 1 << (8 * size - 1)) else raw
+                return order_key(krt, e[1][0])
             out = []
             for e in elems:      # std::map keeps the FIRST value of a key (initializer-list insertion), multimap keeps all, stable
                 if sk == 'map' and any(mkey(x) == mkey(e) for x in out):
@@ -665,16 +700,13 @@ def canon_value_for(rt, val):
                 out.append(e)
             return ('q', sorted(out, key=mkey))
         if rt['seqkind'] in ('set', 'multiset'):
-            c = rt['ty'][1][1]
-            size = ARITH[c][0]
             def key(e):
-                raw = e[1]
-                return raw - (1 << (8 * size)) if (c in SIGNED and raw >= 1 << (8 * size - 1)) else raw
+                return order_key(rt['elem'], e)
             elems = sorted(elems, key=key)
             if rt['seqkind'] == 'set':
                 out = []
                 for e in elems:
-                    if not out or out[-1] != e:
+                    if not out or key(out[-1]) != key(e):
                         out.append(e)
                 elems = out
         return ('q', elems)
